@@ -25,8 +25,16 @@ SCRIPT = r'''
     1 (string "p-" s "-" q "-" (string/repeat "x" (% (+ s q) 40)))
     2 [s q @{:k (* s q) :t [s [q]]} (buffer "b" s)]
     3 {:s s :q q :i (int/s64 (+ (* s 1000) q))}
+    # shared and cyclic structure: one array referenced twice, and a table that contains itself
+    5 (let [a @[s q]] [a a @{:alias a}])
+    6 (let [t @{:s s :q q}] (put t :self t) t)
     @[s q]))
-(defn shape-of [s q] (% (+ s (* 3 q)) 5))
+(defn shape-of [s q] (% (+ s (* 3 q)) 7))
+(defn payload-ok [p s q shape]
+  (case shape
+    5 (and (tuple? p) (= 3 (length p)) (deep= (p 0) @[s q]) (= (p 0) (p 1)) (= (p 0) ((p 2) :alias)))
+    6 (and (table? p) (= (p :s) s) (= (p :q) q) (= (p :self) p))
+    (deep= p (payload s q shape))))
 (defn now [] (os/clock :monotonic))
 (def chans (seq [i :range [0 nchan]] (ev/thread-chan cap)))
 (def done (ev/thread-chan 64))
@@ -50,7 +58,7 @@ SCRIPT = r'''
 
 (defn check-msg [ev who ci m]
   (def [_ s q p] m)
-  (array/push ev ["R" who s q ci (if (deep= p (payload s q (shape-of s q))) "ok" "BAD") (now)]))
+  (array/push ev ["R" who s q ci (if (payload-ok p s q (shape-of s q)) "ok" "BAD") (now)]))
 
 (defn receiver [r]
   (fn [&]
